@@ -69,9 +69,9 @@ SURFACE_THEOREMS = {
     _GW: ["gateway_surface", "gateway_storage_no_alias", "gateway_storage_keys", "gateway_state_changes_only_through_surface"],
     _GS: ["gasService_surface", "gasService_storage_no_alias", "gasService_storage_keys", "gasService_effects_only_through_surface"],
     _GOV: ["governance_surface", "governance_storage_no_alias", "governance_storage_keys", "governance_effects_only_through_surface",
-           "governance_execute_in_surface"],
+           "governance_execute_in_surface", "governance_callback_gas_reserved"],
     _TM: ["tokenManager_surface", "tokenManager_storage_no_alias", "tokenManager_storage_keys", "tokenManager_effects_only_through_surface"],
-    _ITS: ["its_surface", "its_storage_no_alias", "its_storage_keys"],
+    _ITS: ["its_surface", "its_storage_no_alias", "its_storage_keys", "its_callback_gas_reserved"],
 }
 
 
